@@ -314,12 +314,13 @@ def _is_object_check(ctx, f):
         return False
     for p in oks:
         good = False
-        for d in p.decisions():
-            pat = d.d.get("pat")
-            if pat is not None and d.d["outcome"] is not False and _pat_has_ctor(pat, "serde_json::value::Value::Object"):
+        for fct, d in path_facts(p):
+            if fct[0] == "variant" and fct[2] == "serde_json::value::Value::Object" and fct[3] is True:
                 # value returned is the bound payload
                 v = unmut(p.value)
-                if is_call_to(v, lambda x: x == "core::result::Result::Ok") and v[2] and v[2][0] == ("proj", unmut(d.d["cond"]), "Value::Object.0"):
+                if is_call_to(v, lambda x: x == "core::result::Result::Ok") and v[2]:
+                    v = v[2][0]
+                if v == ("proj", unmut(d.d["cond"]), "Value::Object.0"):
                     good = True
         if not good:
             return False
@@ -451,13 +452,15 @@ def _is_leaf_test(c, ent):
 
 def _decided(p, upto, test, want_leaf):
     """on this path, before event `upto`, a decision established that the entry is (not) a leaf entry"""
-    for d in p.decisions(upto):
-        if d.d["how"] != "if":
-            continue
-        r = test(d.d["cond"])
-        if r:
-            is_leaf = (d.d["outcome"] is True) == (r > 0)
-            if is_leaf == want_leaf:
+    for fct, d in path_facts(p, upto):
+        if fct[0] == "bool":
+            r = test(fct[1])
+            if r and ((fct[2] is True) == (r > 0)) == want_leaf:
+                return True
+        elif fct[0] in ("eq", "ne") and fct[2] == 0:
+            # run_length == 0 ⇔ leaf entry, in whatever form it was tested (`if`, `match entry.run_length { 0 => .. }`, …)
+            r = test(("bin", "==", fct[1], C(0)))
+            if r and ((fct[0] == "eq") == (r > 0)) == want_leaf:
                 return True
     return False
 
